@@ -629,6 +629,9 @@ def work(item):
     return res
 
 
+FLOAT_RUN_CPU_S = 120          # a float scenario takes well under a second
+
+
 def float_disagreement(fam, copy_rel, label, inputs):
     """replay on floats: run the same scenario with the model's values for x, y, s, r (coefficients random) on the pristine functions"""
     numenv.disable()
@@ -685,8 +688,16 @@ def float_disagreement(fam, copy_rel, label, inputs):
                     swapped.append((m_, nm, cur))
                     setattr(m_, nm, getattr(np, nm))
         try:
-            a = scen(ref, FakeCtx())
-            b = scen(cp, FakeCtx())
+            try:
+                with H.cpu_limit(FLOAT_RUN_CPU_S):
+                    a = scen(ref, FakeCtx())
+            except H.CpuTimeout:
+                return None          # the reference itself does not come back: nothing to compare with
+            try:
+                with H.cpu_limit(FLOAT_RUN_CPU_S):
+                    b = scen(cp, FakeCtx())
+            except H.CpuTimeout:
+                return 'the copy does not return within %d s of CPU time on inputs on which the reference returns' % FLOAT_RUN_CPU_S
         finally:
             globals()['SReal'] = orig_sreal
             z3.Real = orig_real
